@@ -3,6 +3,7 @@ package props
 import (
 	"encoding/json"
 	"fmt"
+	netannotation "github.com/php-any/origami/std/net/annotation"
 	"net/http"
 	"net/http/httptest"
 	"net/url"
@@ -46,10 +47,11 @@ type httpReqSpec struct {
 }
 
 type httpCfg struct {
-	Script string        `json:"script"`
-	Reqs   []httpReqSpec `json:"reqs"`
-	Mode   string        `json:"mode"` // alone | parallel | gated
-	Procs  int           `json:"procs"`
+	Script string            `json:"script"`
+	Reqs   []httpReqSpec     `json:"reqs"`
+	Mode   string            `json:"mode"` // alone | parallel | gated
+	Procs  int               `json:"procs"`
+	Files  map[string]string `json:"files,omitempty"` // file-based application (index.php + app/**) instead of Script
 }
 
 type httpResp struct {
@@ -89,6 +91,67 @@ func (gateFunc) Call(ctx data.Context) (data.GetValue, data.Control) {
 func (gateFunc) GetName() string               { return "__gate" }
 func (gateFunc) GetParams() []data.GetValue    { return nil }
 func (gateFunc) GetVariables() []data.Variable { return nil }
+
+// captureFunc lets a file-based application hand its $server to the harness.
+type captureFunc struct{ got data.Value }
+
+func (f *captureFunc) Call(ctx data.Context) (data.GetValue, data.Control) {
+	if v, ok := ctx.GetIndexValue(0); ok {
+		f.got = v
+	}
+	return nil, nil
+}
+func (f *captureFunc) GetName() string { return "__capture" }
+func (f *captureFunc) GetParams() []data.GetValue {
+	return []data.GetValue{node.NewParameter(nil, "v", 0, nil, nil)}
+}
+func (f *captureFunc) GetVariables() []data.Variable {
+	return []data.Variable{node.NewVariable(nil, "v", 0, nil)}
+}
+
+// buildMuxFor builds the server of a configuration: a single script, or an application made of files
+// (annotation routing scans a directory) whose index.php hands $server to __capture.
+func buildMuxFor(cfg httpCfg) (*http.ServeMux, *sb.ScriptEnv, string) {
+	if len(cfg.Files) == 0 {
+		return buildMux(cfg.Script)
+	}
+	dir, err := os.MkdirTemp("", "c11-app-")
+	if err != nil {
+		return nil, nil, "tempdir: " + err.Error()
+	}
+	appDirs = append(appDirs, dir)
+	for name, body := range cfg.Files {
+		p := filepath.Join(dir, filepath.FromSlash(name))
+		os.MkdirAll(filepath.Dir(p), 0o755)
+		os.WriteFile(p, []byte(body), 0o644)
+	}
+	e := sb.NewScriptEnv("http")
+	netannotation.Load(e.VM)
+	e.VM.AddFunc(gateFunc{})
+	cap := &captureFunc{}
+	e.VM.AddFunc(cap)
+	if _, c := e.VM.LoadAndRun(filepath.Join(dir, "index.php")); c != nil {
+		return nil, e, "run: " + c.AsString()
+	}
+	if e.Thrown != nil {
+		return nil, e, "uncaught: " + e.Thrown.AsString()
+	}
+	if gs, ok := cap.got.(interface{ GetSource() any }); ok {
+		if m, ok := gs.GetSource().(*http.ServeMux); ok {
+			return m, e, ""
+		}
+	}
+	if cv, ok := cap.got.(*data.ClassValue); ok {
+		if src, ok := cv.Class.(interface{ GetSource() any }); ok {
+			if m, ok := src.GetSource().(*http.ServeMux); ok {
+				return m, e, ""
+			}
+		}
+	}
+	return nil, e, "the application did not hand a server to __capture"
+}
+
+var appDirs []string
 
 func buildMux(script string) (*http.ServeMux, *sb.ScriptEnv, string) {
 	e := sb.NewScriptEnv("http")
@@ -175,13 +238,20 @@ func httpHandler(req *sb.Req) *sb.Rep {
 	if err := json.Unmarshal(req.Data, &cfg); err != nil {
 		return &sb.Rep{Outcome: sb.Infra, Msg: err.Error()}
 	}
-	defer func() { data.WriteOutput = data.DefaultOutputWriter; theGate = nil }()
+	defer func() {
+		data.WriteOutput = data.DefaultOutputWriter
+		theGate = nil
+		for _, d := range appDirs {
+			os.RemoveAll(d)
+		}
+		appDirs = nil
+	}()
 	out := make([]httpResp, len(cfg.Reqs))
 	switch cfg.Mode {
 	case "alone":
 		for i, r := range cfg.Reqs {
 			theGate = nil
-			mux, _, msg := buildMux(cfg.Script)
+			mux, _, msg := buildMuxFor(cfg)
 			if mux == nil {
 				return &sb.Rep{Outcome: sb.Infra, Msg: msg}
 			}
@@ -189,7 +259,7 @@ func httpHandler(req *sb.Req) *sb.Rep {
 			out[i] = serveOne(mux, r)
 		}
 	case "parallel":
-		mux, _, msg := buildMux(cfg.Script)
+		mux, _, msg := buildMuxFor(cfg)
 		if mux == nil {
 			return &sb.Rep{Outcome: sb.Infra, Msg: msg}
 		}
@@ -208,7 +278,7 @@ func httpHandler(req *sb.Req) *sb.Rep {
 		close(start)
 		wg.Wait()
 	case "gated":
-		mux, _, msg := buildMux(cfg.Script)
+		mux, _, msg := buildMuxFor(cfg)
 		if mux == nil {
 			return &sb.Rep{Outcome: sb.Infra, Msg: msg}
 		}
@@ -222,7 +292,10 @@ func httpHandler(req *sb.Req) *sb.Rep {
 		select {
 		case <-g.parked:
 		case <-doneA:
-			// A never reached the gate
+			// A never reached the gate: nobody would release a later request that does
+			g.mu.Lock()
+			g.armed = false
+			g.mu.Unlock()
 			for i := 1; i < len(cfg.Reqs); i++ {
 				out[i] = serveOne(mux, cfg.Reqs[i])
 			}
@@ -269,6 +342,8 @@ var readSrcs = []readSrc{
 	{"$_REQUEST@function", func(k string) string { return "rdRequest('" + k + "')" }, "nested", "query"},
 }
 
+const nStyles = 5
+
 type handlerSpec struct {
 	Reads []int `json:"reads"` // indexes into readSrcs
 	Gate  int   `json:"gate"`  // gate after this many reads (0 = none)
@@ -289,7 +364,13 @@ func handlerSource(route string, h handlerSpec) string {
 		if h.Gate == i+1 {
 			sb.WriteString("    __gate();\n")
 		}
-		switch h.Style % 3 {
+		switch h.Style % nStyles {
+		case 3:
+			// a per-request object whose method evaluates a closure literal without use-list that reads $this
+			fmt.Fprintf(&sb, "    $o%d = new Holder();\n    $o%d->v = $v%d;\n    $acc = $acc . '(' . $o%d->wrap('') . ')';\n", i, i, i, i)
+		case 4:
+			// the same through an arrow function handed to array_map
+			fmt.Fprintf(&sb, "    $o%d = new Holder();\n    $o%d->v = $v%d;\n    $acc = $acc . '~' . $o%d->wrapAll(['', '']) . '~';\n", i, i, i, i)
 		case 0:
 			fmt.Fprintf(&sb, "    $acc = $acc . '[' . $v%d . ']';\n", i)
 		case 1:
@@ -311,7 +392,7 @@ func handlerSource(route string, h handlerSpec) string {
 // $next it received must belong to the request it is serving, like a handler's).
 func serverScript(handlers []handlerSpec, mw ...bool) string {
 	var sb strings.Builder
-	sb.WriteString("<?php\nuse Net\\Http\\Server;\nclass Holder { public $v; }\nfunction rdGet($k) { return $_GET[$k] ?? ''; }\nfunction rdRequest($k) { return $_REQUEST[$k] ?? ''; }\nclass Rd { static function post($k) { return $_POST[$k] ?? ''; } }\nfunction joinVals($vs) { $s = ''; foreach ($vs as $x) { $s = $s . $x . ','; } return $s; }\n$server = new Server('127.0.0.1', 0);\n")
+	sb.WriteString("<?php\nuse Net\\Http\\Server;\nclass Holder { public $v; function wrap($x) { $f = function ($y) { return $this->v . $y; }; return $f($x); } function wrapAll($xs) { return implode('', array_map(fn($y) => $this->v . $y, $xs)); } }\nfunction rdGet($k) { return $_GET[$k] ?? ''; }\nfunction rdRequest($k) { return $_REQUEST[$k] ?? ''; }\nclass Rd { static function post($k) { return $_POST[$k] ?? ''; } }\nfunction joinVals($vs) { $s = ''; foreach ($vs as $x) { $s = $s . $x . ','; } return $s; }\n$server = new Server('127.0.0.1', 0);\n")
 	if len(mw) > 0 && mw[0] {
 		sb.WriteString("$server->middleware(function ($req, $res, $next) {\n    $m = $req->header('X-a');\n    $res->header('X-MW-Before', $m);\n    $next($req, $res);\n    $res->write(';mw=' . $m . '|' . $req->header('X-b'));\n});\n")
 	}
@@ -335,6 +416,19 @@ func requestFor(route string, id int) httpReqSpec {
 	}
 	q.Set("rid", tag)
 	return httpReqSpec{Method: "POST", URL: route + "?" + q.Encode(), Headers: hdr, Form: form, Cookies: ck}
+}
+
+// annotationApp: annotation-routed controllers (#[Application] scanning a directory, #[Controller], #[PostMapping])
+// behind a class middleware attached with #[Middleware(X::class)] that keeps request data in its own properties
+// across $next, and a controller that keeps request data in a property while it is parked. Whatever instance the
+// framework hands out, a response may only contain its own request's data.
+func annotationApp() map[string]string {
+	return map[string]string{
+		"index.php":                         "<?php\nuse Net\\Http\\Server;\n$server = new Server('127.0.0.1', 0);\n$server->flash(__DIR__ . '/app');\n__capture($server);\n",
+		"app/main.php":                      "<?php\nnamespace VApp;\nuse Net\\Annotation\\Application;\n#[Application(name: 'vapp', scan: __DIR__)]\nclass VApplication {\n    public static function boot(): void {}\n}\n",
+		"app/Middleware/TagMiddleware.php":  "<?php\nnamespace VApp\\Middleware;\nclass TagMiddleware {\n    public $who = '';\n    public $seen = 0;\n    public function handle($request, $response, $next) {\n        $this->who = $request->header('X-a');\n        $this->seen = $this->seen + 1;\n        $response->header('X-MW-Before', $this->who);\n        $next($request, $response);\n        $response->write(';mw=' . $this->who . '|' . $request->header('X-b'));\n    }\n}\n",
+		"app/Controller/EchoController.php": "<?php\nnamespace VApp\\Controller;\nuse Net\\Annotation\\Controller;\nuse Net\\Annotation\\Route;\nuse Net\\Annotation\\PostMapping;\nuse Net\\Annotation\\Middleware;\nuse VApp\\Middleware\\TagMiddleware;\n#[Middleware(TagMiddleware::class)]\n#[Controller]\n#[Route(prefix: \"/api\")]\nclass EchoController {\n    #[PostMapping(path: \"/h0\")]\n    public function h0($request, $response): void {\n        $v = $request->header('X-c');\n        __gate();\n        $response->write('n=1;acc=[' . $v . ']' . $request->header('X-d'));\n    }\n    #[PostMapping(path: \"/h1\")]\n    public function h1($request, $response): void {\n        $response->write('n=1;acc=<' . $request->header('X-e') . '>');\n    }\n}\n",
+	}
 }
 
 type c11Case struct {
@@ -488,7 +582,7 @@ func TestC11(t *testing.T) {
 	idx := 0
 	for i1, s1 := range readSrcs {
 		for i2, s2 := range readSrcs {
-			for style := 0; style < 3; style++ {
+			for style := 0; style < nStyles; style++ {
 				idx++
 				if !cfg.Mine(idx) {
 					continue
@@ -515,7 +609,7 @@ func TestC11(t *testing.T) {
 	}
 	// (iii) strictly sequential requests, every source (superglobals included): 3 requests with distinct data
 	for si, s1 := range readSrcs {
-		for style := 0; style < 3; style++ {
+		for style := 0; style < nStyles; style++ {
 			idx++
 			if !cfg.Mine(idx) {
 				continue
@@ -564,13 +658,38 @@ func TestC11(t *testing.T) {
 		if !cfg.Mine(idx) {
 			continue
 		}
-		hs := []handlerSpec{{Reads: []int{si, si}, Gate: 1, Style: si % 3}}
+		hs := []handlerSpec{{Reads: []int{si, si}, Gate: 1, Style: si % nStyles}}
 		c := c11Case{Handlers: hs, Sources: []string{s1.Name, "middleware"}, MW: true}
 		c.Cfg = httpCfg{Script: serverScript(hs, true), Mode: "gated", Reqs: []httpReqSpec{requestFor("/h0", 1), requestFor("/h0", 2)}}
 		rec.NonTrivial(c.Cfg.Script, "gated-mw")
 		rec.Label("gated:middleware", c.Cfg.Script)
 		if f := c11Judge(pool, alonePool, rec, c); f != nil {
 			rec.Fail(f.Key, f.Detail, f.Case)
+		}
+	}
+	// (v) annotation-routed application with a class middleware that keeps request data in its properties
+	for k, shape := range []struct {
+		mode   string
+		routes []string
+	}{
+		{"gated", []string{"/api/h0", "/api/h0", "/api/h1"}},            // request 1 parks in the controller, behind the middleware's first half
+		{"gated", []string{"/api/h1", "/api/h1", "/api/h0", "/api/h1"}}, // no gate on the way: strictly sequential on one server
+		{"parallel", []string{"/api/h0", "/api/h1", "/api/h0", "/api/h1", "/api/h1", "/api/h0"}},
+	} {
+		idx++
+		if !cfg.Mine(idx) {
+			continue
+		}
+		var reqs []httpReqSpec
+		for i, r := range shape.routes {
+			reqs = append(reqs, requestFor(r, i+1))
+		}
+		c := c11Case{Sources: []string{"annotation-middleware"}}
+		c.Cfg = httpCfg{Files: annotationApp(), Mode: shape.mode, Reqs: reqs, Procs: 4}
+		rec.NonTrivial("annotation-app", fmt.Sprint(k))
+		rec.Label("annotation-app:"+shape.mode, strings.Join(shape.routes, " "))
+		if f := c11Judge(pool, alonePool, rec, c); f != nil {
+			rec.Fail(f.Key+":annotation-app", f.Detail, f.Case)
 		}
 	}
 	rec.Flush()
@@ -624,7 +743,7 @@ func TestC11(t *testing.T) {
 		var hs []handlerSpec
 		srcNames := map[string]bool{}
 		for i := 0; i < nh; i++ {
-			h := handlerSpec{Style: rapid.IntRange(0, 2).Draw(rt, "style")}
+			h := handlerSpec{Style: rapid.IntRange(0, nStyles-1).Draw(rt, "style")}
 			for k := rapid.IntRange(1, 5).Draw(rt, "nreads"); k > 0; k-- {
 				ri := allowed[rapid.IntRange(0, len(allowed)-1).Draw(rt, "src")]
 				h.Reads = append(h.Reads, ri)
